@@ -221,7 +221,13 @@ impl World {
 pub fn run(args: Args) {
     let shard = args.num("shard", 0);
     let nshards = args.num("nshards", 1).max(1);
-    let root = PathBuf::from(format!("/tmp/c20-{}-{}", std::process::id(), shard));
+    let base = if Path::new("/dev/shm").is_dir() && std::fs::write(format!("/dev/shm/.wacv-probe-{}", std::process::id()), b"x").is_ok() {
+        std::fs::remove_file(format!("/dev/shm/.wacv-probe-{}", std::process::id())).ok();
+        PathBuf::from("/dev/shm")
+    } else {
+        std::env::temp_dir()
+    };
+    let root = base.join(format!("c20-{}-{}", std::process::id(), shard));
     let _ = std::fs::remove_dir_all(&root);
     std::fs::create_dir_all(&root).unwrap();
     let mut out = Out::create(&args.out, &format!("c20-s{shard}-"));
